@@ -144,7 +144,7 @@ class Result(dict):
 
 
 class Prover:
-  def __init__(self, timeout_s=20.0, first_s=1.5, max_cases=4096, logic=None):
+  def __init__(self, timeout_s=20.0, first_s=1.5, max_cases=4096, logic=None, fresh=False):
     self.timeout_s = timeout_s
     self.first_s = first_s
     self.max_cases = max_cases
@@ -152,12 +152,25 @@ class Prover:
     self.solver_s = 0.0
     self.results = []
     self.logic = logic
+    self.fresh = fresh
 
   def _solver(self):
     s = z3.Solver() if self.logic is None else z3.SolverFor(self.logic)
     return s
 
   def _check(self, s, extra, timeout_s):
+    if self.fresh:
+      # a FRESH, never-pushed solver: after push/pop z3 uses its incremental core and loses the
+      # nlsat-based pipeline that decides polynomial identities in milliseconds
+      sol = self._solver()
+      sol.add(s.assertions())
+      sol.add(extra)
+      sol.set('timeout', max(1, int(timeout_s * 1000)))
+      t = time.time()
+      r = str(sol.check())
+      self.queries += 1
+      self.solver_s += time.time() - t
+      return r, (sol.model() if r == 'sat' else None)
     s.push()
     s.add(extra)
     s.set('timeout', max(1, int(timeout_s * 1000)))
@@ -289,7 +302,7 @@ class Prover:
     return r
 
   # ----------------------------------------------------------------- helpers
-  def equal(self, name, A, B, assume=(), split=(), kind='core', timeout_s=None, note='', force=False):
+  def equal(self, name, A, B, assume=(), split=(), kind='core', timeout_s=None, note='', force=False, poly=False):
     """all entries of A equal the corresponding entries of B (force: hand even literally
     identical terms to the solver)"""
     diffs = differing(A, B, keep_identical=force)
@@ -303,6 +316,22 @@ class Prover:
                    note='terms syntactically identical')
       self.results.append(res)
       return res
+    if poly and not assume:
+      # polynomial identities: z3's rewriter in sum-of-monomials normal form decides many of them
+      t = time.time()
+      rest = []
+      for a, b in diffs:
+        d_ = z3.simplify(a - b, som=True, arith_lhs=True, sort_sums=True, flat=True)
+        if not (z3.is_rational_value(d_) or z3.is_int_value(d_)) or R.val(d_) != 0:
+          rest.append((a, b))
+      self.queries += 1
+      self.solver_s += time.time() - t
+      if not rest:
+        res = Result(name=name, status='unsat', cases=1, queries=1, solver_s=round(time.time() - t, 3), kind=kind,
+                     note='polynomial identity: a - b rewrites to 0 in z3 sum-of-monomials normal form')
+        self.results.append(res)
+        return res
+      diffs = rest
     goal = z3.And([a == b for a, b in diffs])
     return self.prove(name, goal, assume, split, kind=kind, timeout_s=timeout_s, note=note)
 
